@@ -258,6 +258,127 @@ def bounded(rep, tier):
                 replay=dict(reproduced=True, detail=f'{src}: {msg}'[:300]), replay_script=f'print({items[:3]!r}); sys.exit(1)\n')
     rep.bounded.append(dict(kind='is_bearable(obj, infer_hint(obj)) over an object grammar + self-referential containers (bounded stand-in, NOT counted as proved)', objects=cases, failing=len(fails)))
 
+def sibling_sweep(rep, tier):
+    """BOUNDED stand-in (never counted as proved), derived from the REAL inference state machine: genuine instances of every collections.abc
+    base (and of the builtin containers) that ALSO define methods belonging to a sibling protocol of the state machine - one extra method at
+    a time, every pair out of one sibling's key, and a sibling's whole key - must still be described by their inferred hint.  The method
+    names are read from get_finite_state_machine() on every run."""
+    import collections.abc as cabc, types, itertools
+    from beartype.door import infer_hint, is_bearable
+    from beartype import BeartypeConf, BeartypeStrategy
+    from beartype.bite.collection import infercollectionsabc as fsm_mod
+    CONF_ON = BeartypeConf(strategy=BeartypeStrategy.On)
+    keys = []
+    def walk(node):
+        for k, nx in (getattr(node, 'nodes_next', None) or {}).items():
+            keys.append((getattr(getattr(nx, 'hint_factory', None), '__name__', None) or repr(getattr(nx, 'hint_factory', None)), frozenset(k))); walk(nx)
+    walk(fsm_mod.get_finite_state_machine())
+    if not keys: rep.error('C20 sibling_sweep: the inference state machine has no transitions (extraction key no longer resolves)'); return
+    class Seq(cabc.Sequence):
+        def __init__(self, x=(1, 2)): self._x = list(x)
+        def __getitem__(self, i): return self._x[i]
+        def __len__(self): return len(self._x)
+    class MSeq(cabc.MutableSequence):
+        def __init__(self, x=(1, 2)): self._x = list(x)
+        def __getitem__(self, i): return self._x[i]
+        def __len__(self): return len(self._x)
+        def __setitem__(self, i, v): self._x[i] = v
+        def __delitem__(self, i): del self._x[i]
+        def insert(self, i, v): self._x.insert(i, v)
+    class Map(cabc.Mapping):
+        def __init__(self, x=((1, 'a'),)): self._x = dict(x)
+        def __getitem__(self, k): return self._x[k]
+        def __iter__(self): return iter(self._x)
+        def __len__(self): return len(self._x)
+    class MMap(cabc.MutableMapping):
+        def __init__(self, x=((1, 'a'),)): self._x = dict(x)
+        def __getitem__(self, k): return self._x[k]
+        def __iter__(self): return iter(self._x)
+        def __len__(self): return len(self._x)
+        def __setitem__(self, k, v): self._x[k] = v
+        def __delitem__(self, k): del self._x[k]
+    class St(cabc.Set):
+        def __init__(self, x=(1, 2)): self._x = set(x)
+        def __contains__(self, v): return v in self._x
+        def __iter__(self): return iter(self._x)
+        def __len__(self): return len(self._x)
+    class MSt(cabc.MutableSet):
+        def __init__(self, x=(1, 2)): self._x = set(x)
+        def __contains__(self, v): return v in self._x
+        def __iter__(self): return iter(self._x)
+        def __len__(self): return len(self._x)
+        def add(self, v): self._x.add(v)
+        def discard(self, v): self._x.discard(v)
+    class Coll(cabc.Collection):
+        def __contains__(self, v): return v in (1, 2)
+        def __iter__(self): return iter((1, 2))
+        def __len__(self): return 2
+    class Rev(cabc.Reversible):
+        def __iter__(self): return iter((1, 2))
+        def __reversed__(self): return iter((2, 1))
+    class Itb(cabc.Iterable):
+        def __iter__(self): return iter((1, 2))
+    class Cont(cabc.Container):
+        def __contains__(self, v): return False
+    class Sz(cabc.Sized):
+        def __len__(self): return 0
+    class L(list): pass
+    class D(dict): pass
+    class S(set): pass
+    class T(tuple): pass
+    BASES = [(Seq, ()), (MSeq, ()), (Map, ()), (MMap, ()), (St, ()), (MSt, ()), (Coll, ()), (Rev, ()), (Itb, ()), (Cont, ()), (Sz, ()), (L, ([1],)), (D, ({1: 'a'},)), (S, ({1},)), (T, ((1, 'a'),))]
+    def stub(name):
+        if name == '__reversed__': return lambda self: iter(())
+        if name in ('__iter__', '__aiter__'): return lambda self: iter(())
+        if name == '__len__': return lambda self: 0
+        if name in ('__eq__',): return lambda self, o: self is o
+        if name in ('__ne__',): return lambda self, o: self is not o
+        if name == '__hash__': return lambda self: id(self)
+        return lambda self, *a, **k: None
+    cases = 0; fails = []
+    def trial(base, args, extra, kind):
+        nonlocal cases
+        probe = base(*args)
+        extra = tuple(sorted(n for n in extra if getattr(probe, n, None) is None))
+        if not extra: return
+        cls = type(base.__name__ + '_with_' + '_'.join(x.strip('_') for x in extra)[:40], (base,), {n: stub(n) for n in extra})
+        cases += 1
+        try:
+            with warnings.catch_warnings():
+                warnings.simplefilter('ignore')
+                o = cls(*args); h = infer_hint(o)
+                for conf in (None, CONF_ON):
+                    ok = is_bearable(cls(*args), h) if conf is None else is_bearable(cls(*args), h, conf=conf)
+                    if ok is not True:
+                        fails.append((kind, base.__name__, extra, f'infer_hint -> {h!r}; is_bearable is {ok}')); break
+        except Exception as e: fails.append((kind, base.__name__, extra, f'{type(e).__name__}: {e}'[:200]))
+    allnames = sorted(set().union(*[k for _, k in keys]))
+    for base, args in BASES:
+        for n in allnames: trial(base, args, (n,), 'one_extra_method')
+        for abc_name, k in keys:
+            trial(base, args, tuple(k), 'whole_sibling_key')
+            if tier != 'quick' or len(k) <= 4:
+                for pair in itertools.combinations(sorted(k), 2): trial(base, args, pair, 'two_extra_methods')
+    # objects of builtin types nobody can subclass, which nevertheless carry sibling methods
+    for label, mk in (('mappingproxy', lambda: types.MappingProxyType({1: 'a'})), ('class __dict__', lambda: vars(Seq)), ('dict keys view', lambda: {1: 'a'}.keys()), ('dict items view', lambda: {1: 'a'}.items()),
+                      ('range', lambda: range(3)), ('memoryview', lambda: memoryview(b'ab')), ('bytes', lambda: b'ab'), ('str', lambda: 'ab')):
+        cases += 1
+        try:
+            with warnings.catch_warnings():
+                warnings.simplefilter('ignore')
+                h = infer_hint(mk())
+                if is_bearable(mk(), h) is not True or is_bearable(mk(), h, conf=CONF_ON) is not True: fails.append(('builtin', label, (), f'infer_hint -> {h!r}; is_bearable is False'))
+        except Exception as e: fails.append(('builtin', label, (), f'{type(e).__name__}: {e}'[:200]))
+    groups = {}
+    for kind, b, extra, msg in fails: groups.setdefault((kind, b), []).append((extra, msg))
+    for (kind, b), items in sorted(groups.items()):
+        items.sort(key=lambda t: len(t[0])); extra, msg = items[0]
+        rep.add(f'C20.sibling.{kind}[{b}]', 'refuted', backend='runtime-contract', bounded=True, where=f'{len(items)} classes; e.g. a genuine {b} that also defines {list(extra)}: {msg}'[:500],
+                solver_output='bounded run-time contract on the real API (not a proof)', replay=dict(reproduced=True, detail=f'{b} + {list(extra)}: {msg}'[:300]), replay_script=f'print({[(b, e, m) for e, m in items[:4]]!r}); sys.exit(1)\n')
+    if not cases: rep.error('C20 sibling_sweep: no case ran')
+    rep.bounded.append(dict(kind='genuine collections.abc / builtin container instances carrying methods of sibling protocols of the REAL inference state machine (one, two, or a whole sibling key): is_bearable(obj, infer_hint(obj)); bounded stand-in, NOT counted as proved',
+                            classes=cases, transitions=len(keys), failing=len(fails)))
+
 def classify(src, msg):
     if 'UserString' in src: return 'userstring'
     if 'CR' in src.replace('"', ' ').replace('[', ' ').replace(']', ' ').split() or src == 'CR' or 'CR}' in src: return 'enum_member'
@@ -279,6 +400,8 @@ def main(tier, seed):
         except Exception: rep.error(f'C20 {fn.__name__}: ' + traceback.format_exc()[-2500:])
     try: bounded(rep, tier)
     except Exception: rep.error('C20 bounded: ' + traceback.format_exc()[-2500:])
+    try: sibling_sweep(rep, tier)
+    except Exception: rep.error('C20 sibling_sweep: ' + traceback.format_exc()[-2500:])
     files = ['beartype/bite/_infermain.py', 'beartype/bite/collection/infercollectionitems.py', 'beartype/bite/collection/infercollectionbuiltin.py', 'beartype/bite/collection/infercollectionsabc.py']
     rep.functions = ['bite._infermain.infer_hint (mode F: recursion guard)', 'infercollectionitems.infer_hint_collection_items (mode F: seen-set growth)', 'all recursive inference calls under beartype/bite (structural propagation)'] + [f'{p}@{report.src_hash(p)}' for p in files]
     from pyvc import model as M
